@@ -654,10 +654,13 @@ impl<E: Effect, R: CommandReceiver<E>, S: EventSender<E>> Worker<E, R, S> {
             }
             Err(error) => Err(error.clone()),
         };
+        let locals_count = process.locals.len();
         self.sender.send(Event::ResultResponse {
             request_id,
             result,
             stats,
+            process_id,
+            locals_count,
         })?;
 
         Ok(())
@@ -837,11 +840,17 @@ impl<E: Effect, R: CommandReceiver<E>, S: EventSender<E>> Worker<E, R, S> {
                 } else {
                     None
                 };
+                let locals_count = self
+                    .executor
+                    .get_process(process_id)
+                    .map_or(0, |process| process.locals.len());
                 for (request_id, _) in requests {
                     self.sender.send(Event::ResultResponse {
                         request_id,
                         result: result.clone(),
                         stats: stats.clone(),
+                        process_id,
+                        locals_count,
                     })?;
                 }
             }
